@@ -51,6 +51,32 @@ pub fn run(rep: &mut Report, thorough: bool) {
             seg.reserved = d[1] as u8;
             f.tcp_seg(&seg)
         });
+        // address forms: the policy and the arithmetic hold for every source / destination spelling
+        {
+            let c4: Vec<Ip> = vec![cli4(), Ip::V4([0, 0, 0, 0]), Ip::V4([255, 255, 255, 255]), Ip::V4([224, 0, 0, 1]), Ip::V4([127, 0, 0, 1]), srv4()];
+            let c6: Vec<Ip> = vec![cli6(), Ip::parse("::"), Ip::parse("::1"), Ip::parse("ff02::1"), Ip::parse("::ffff:10.0.0.9"), Ip::parse("::10.0.0.9"), Ip::parse("fe80::1"), srv6(), Ip::parse("::ffff:0.0.0.0"), Ip::parse("2002:a00:9::1")];
+            let s6: Vec<Ip> = vec![srv6(), srv6b(), Ip::parse("::ffff:10.0.0.1"), Ip::parse("::1")];
+            let fl: [u16; 4] = [F_SYN, F_SYN | F_ECE, F_SYN | F_PSH | F_URG, F_SYN | F_ACK];
+            let n4 = c4.len() as u64 * 2;
+            let n6 = (c6.len() * s6.len()) as u64;
+            sweep_frames(rep, cfg, &format!("syn-address-forms-{}", tag), "SYN flag sets (4) x {6 IPv4 sources x 2 destinations, 10 IPv6 sources x 4 destinations incl. IPv4-mapped / IPv4-compatible / loopback forms} x ports {0, 80, 65535}", (n4 + n6) * 4 * 3, |i| {
+                let d = unrank(i, &[n4 + n6, 4, 3]);
+                let port = [0u16, 80, 65535][d[2] as usize];
+                let mut f = if d[0] < n4 { flow4(40000, port) } else { flow6(40000, port) };
+                if d[0] < n4 {
+                    f.cip = c4[(d[0] / 2) as usize];
+                    f.sip = if d[0] % 2 == 0 { srv4() } else { srv4b() };
+                } else {
+                    let k = (d[0] - n4) as usize;
+                    f.cip = c6[k / s6.len()];
+                    f.sip = s6[k % s6.len()];
+                }
+                if port == 0 {
+                    f.cport = 0;
+                }
+                f.tcp(0xffff_ffff, 0, fl[d[1] as usize], b"")
+            });
+        }
         // SYNs behind IPv4 options (IHL 6..15): the policy does not depend on the IP header length
         {
             let dims = [10u64, 512, 2];
